@@ -40,11 +40,11 @@ PROPS = {
                 design="DESIGN.md section 4 C02"),
     "C03": dict(props_file="props/C03.v", engines=[("geom", dict(quick=[("C03", 8000)], thorough=[("C03", 400000)]))],
                 design="DESIGN.md section 4 C03"),
-    "C13": dict(props_file="props/C13.v", engines=[("geom", dict(quick=[("C13", 20000)], thorough=[("C13", 2000000)]))],
+    "C13": dict(props_file="props/C13.v", engines=[("geom", dict(quick=[("C13", 20000)], thorough=[("C13", 2000000)], coqeval_quick=40, coqeval_thorough=600))],
                 design="DESIGN.md section 4 C13"),
     "C01": dict(props_file="props/C01.v", engines=[("geom", dict(quick=[("C01", 20000)], thorough=[("C01", 1500000), ("C01a", 300000)], coqeval_quick=24, coqeval_thorough=400))],
                 design="DESIGN.md section 4 C01"),
-    "C12": dict(props_file="props/C12.v", engines=[("geom", dict(quick=[("C12", 30000)], thorough=[("C12", 2000000)]))],
+    "C12": dict(props_file="props/C12.v", engines=[("geom", dict(quick=[("C12", 30000)], thorough=[("C12", 2000000)], coqeval_quick=40, coqeval_thorough=600))],
                 design="DESIGN.md section 4 C12"),
     "C04": dict(props_file="props/C04.v", needs_gen=True,
                 engines=[("geom", dict(quick=[("C04", 4000)], thorough=[("C04", 200000)])), ("tables", dict(groups=True))],
